@@ -35,7 +35,7 @@ pub fn c06(ctx: &Ctx, subj: &dyn DynSubject, ty: &Ty, rep: &mut Report) {
         corpus_read(ctx, subj, ty, rep);
     }
     let strat = strategy_for(ctx, ty, GenCfg::default());
-    crate::runner::run_cases(ctx, subj, rep, strat, ctx.cases, &|v, log| {
+    crate::runner::run_cases_pre(ctx, subj, rep, &sweep_vals(ctx, ty), strat, ctx.cases, &|v, log| {
         self_check(subj, v)?;
         classify(ctx, ty, v, log);
         let (bytes, _) = ser_bytes(subj, v)?;
@@ -66,7 +66,7 @@ pub fn c06(ctx: &Ctx, subj: &dyn DynSubject, ty: &Ty, rep: &mut Report) {
 
 pub fn c07(ctx: &Ctx, subj: &dyn DynSubject, ty: &Ty, rep: &mut Report) {
     let strat = strategy_for(ctx, ty, GenCfg::default());
-    crate::runner::run_cases(ctx, subj, rep, strat, ctx.cases, &|v, log| {
+    crate::runner::run_cases_pre(ctx, subj, rep, &sweep_vals(ctx, ty), strat, ctx.cases, &|v, log| {
         self_check(subj, v)?;
         classify(ctx, ty, v, log);
         let (tbytes, events) = traced(subj, v)?;
